@@ -52,7 +52,7 @@ class C01(PropBase):
                     t = rng.choice(tw)
             trace = []
             v, w = gen.gen_pair(rng, t, lk, cfg, trace=trace)
-            step = {"op": "roundtrip", "t": t, "v": v, "mod": rng.choice(mods), "amb": trace[:40]}
+            step = {"op": "roundtrip", "t": t, "v": v, "mod": rng.choice(mods), "amb": _dedupe(trace)}
             if "stack" in sw and rng.random() < 0.3:
                 step["depth"] = rng.randint(1, 40)
             mid = []
@@ -164,6 +164,19 @@ class C01(PropBase):
             if amb_u and amb_m:
                 break
         return amb_u, amb_m
+
+
+def _dedupe(trace, cap=600):
+    """One record per distinct (union, member, wire form): large values repeat positions."""
+    out, seen = [], set()
+    for rec in trace:
+        k = core.digest(core.jdump([rec["u"], rec["m"], rec["w"]]))
+        if k not in seen:
+            seen.add(k)
+            out.append(rec)
+            if len(out) >= cap:
+                break
+    return out
 
 
 def _same_union_order(a, b) -> bool:
